@@ -174,11 +174,11 @@ def _assert_unchanged(before, obj, what):
 
 
 def _same_result(a, b, what):
-    """the same operation applied twice to the same object gives the same result"""
+    """the same operation / the same reading applied twice to the same object gives the same result"""
     ok = type(a) is type(b) and a.index.equals(b.index) and list(a.index.names) == list(b.index.names) and a.equals(b)
     if not ok:
-        raise Violation("%s applied twice to the same object gives different results: %r then %r"
-                        % (what, a.values.tolist()[:6], b.values.tolist()[:6]), bucket="call_twice:" + what.split("(")[0])
+        raise Violation("%s: the same object gives different results the first and the second time: %r then %r"
+                        % (what, a.values.tolist()[:6], b.values.tolist()[:6]), bucket="call_twice:" + what.split("(")[0].split(":")[0])
 
 
 def _same(got, want, atol=0.0):
